@@ -20,6 +20,7 @@ EXPLANATION = (
     ' (O1/O5 also follow a helper that builds the normal form for normalize_smiles); (O6) nothing reachable from the comparison mutates a container shared between calls (module level, mutable default, memoised result); (O7) canon_smiles sanitises with every RDKit step.'
     ' (O8) a hand-made memo decorator on the normalisation path keys on every argument; (O9) the benchmark compares the normal forms of the same row.'
     ' (O10) every value wc_similarity returns is a similarity, a constant in [0, 1] or a min / max of such values; a start value outside the interval must be replaced on every path (loops entered from outside run at least once).'
+    " (O11) the benchmark judges each row by that row's similarity (pandas label-alignment rule)."
 )
 ASSUMPTIONS = ["Python's list.sort is stable and orders tuples lexicographically"]
 
